@@ -1,5 +1,48 @@
 package main
 
+import (
+	"context"
+
+	"github.com/koestler/go-victron/vedirect"
+	"github.com/koestler/go-victron/vedirectapi"
+	"github.com/koestler/go-victron/veregister"
+)
+
 func runOtherSuite(suite string, rng *Rng, thorough bool, s *Sink) bool {
-	return false
+	switch suite {
+	case "c12":
+		suiteC12(s)
+	case "c13":
+		suiteC13(s)
+	case "c14":
+		suiteC14(rng, thorough, s)
+	case "c15":
+		suiteC15(rng, thorough, s)
+	case "c16":
+		suiteC16(rng, thorough, s)
+	case "c17":
+		suiteC17(rng, thorough, s)
+	default:
+		return runApiSuite(suite, rng, thorough, s)
+	}
+	return true
+}
+
+// connectApi: a RegisterApi on a reactive device of the given product
+func connectApi(dev *DevPort) (*vedirectapi.RegisterApi, error) {
+	return vedirectapi.NewRegisterApi(dev, vedirect.Config{})
+}
+
+// fieldListValueVia reads one field-list register through the public API and returns the FieldListValue
+// the stream handler receives.
+func fieldListValueVia(reg veregister.FieldListRegisterStruct, payload []byte) (val vedirectapi.FieldListValue, err error) {
+	dev := NewDevPort(0xA231)
+	dev.Regs[reg.Address()] = DevAnswer{0, payload}
+	api, err := connectApi(dev)
+	if err != nil {
+		return val, err
+	}
+	rl := veregister.RegisterList{FieldListRegisters: []veregister.FieldListRegisterStruct{reg}}
+	err = api.StreamRegisterList(context.Background(), rl, vedirectapi.ValueHandler{FieldList: func(v vedirectapi.FieldListValue) { val = v }})
+	return
 }
